@@ -25,7 +25,9 @@ AddrMax == 65535
 UnitBits == 16
 BranchPCs == {4096, 40000}
 Full == {"MSP430", "MSP430:all"}
-Samp == {"MSP430", "MSP430:sample", "MSP430:all"}
+\* "MSP430X:sample": the sample subset assembled under CPU MSP430X (CPU-variant dimension: the 430X executes the 430
+\* instruction set unchanged; statement addresses and targets below 64 K, where PC + X is truncated to 16 bits as on the 430)
+Samp == {"MSP430", "MSP430:sample", "MSP430:all", "MSP430X:sample"}
 
 RegSeq(lo, n) == [i \in 1..n |-> <<"R" \o ToString(lo + i - 1), lo + i - 1>>]
 RegAll == FEnum(<< <<"PC",0>>, <<"SP",1>>, <<"SR",2>> >> \o RegSeq(4, 12), 4)
